@@ -14,6 +14,11 @@ import (
 	"grol.io/grol/trie"
 )
 
+func init() {
+	props["C20"] = propDef{check: checkC20, replay: replayC20,
+		rule: "case = one TLC-emitted transition (witness insertion order + inserted word) replayed on trie.Trie, or one random insertion trace validated by Trie_Trace.tla; distinct by (witness, word); non-trivial when the trie was non-empty before the insert"}
+}
+
 type trieGenLine struct {
 	H   [][]int           `json:"h"`
 	W   []int             `json:"w"`
